@@ -97,16 +97,18 @@ type c19Gate struct {
 	mu       sync.Mutex
 	accepted int
 	open     int
+	streams  []*c19Stream // every connection accepted so far (server side)
 }
 
 type c19Stream struct {
 	net.Stream
-	g    *c19Gate
-	once sync.Once
+	g      *c19Gate
+	once   sync.Once
+	closed bool // under g.mu
 }
 
 func (s *c19Stream) Close() error {
-	s.once.Do(func() { s.g.mu.Lock(); s.g.open--; s.g.mu.Unlock() })
+	s.once.Do(func() { s.g.mu.Lock(); s.g.open--; s.closed = true; s.g.mu.Unlock() })
 	return s.Stream.Close()
 }
 
@@ -119,9 +121,11 @@ func newC19Gate(inner net.Listener, coord *c19Coord) *c19Gate {
 				close(g.ready)
 				return
 			}
+			w := &c19Stream{Stream: s, g: g}
 			g.mu.Lock()
 			g.accepted++
 			g.open++
+			g.streams = append(g.streams, w)
 			g.mu.Unlock()
 			rel := coord.gate()
 			coord.mu.Lock()
@@ -133,7 +137,7 @@ func newC19Gate(inner net.Listener, coord *c19Coord) *c19Gate {
 			}
 			go func() {
 				<-rel
-				g.ready <- &c19Stream{Stream: s, g: g}
+				g.ready <- w
 			}()
 		}
 	}()
@@ -527,7 +531,11 @@ func runC19(res *hx.Result, rng *hx.Rng, tier string, outdir string) {
 	res.Rule = "scenario = k goroutines (2..16) asking one session for proxies of services behind 1..3 endpoints other than the directory's, " +
 		"some after warm-up requests; harness listeners hold the authentication reply until every goroutine that must dial has connected " +
 		"(all past the first lookup, none in the write-locked section), then release them together; each scenario in a child process; " +
-		"non-trivial = at least two goroutines miss the first lookup for the same endpoint; distinct by scenario text"
+		"non-trivial = at least two goroutines miss the first lookup for the same endpoint; distinct by scenario text. " +
+		"life = 3..10 phases on one session (1..3 endpoints, 1..5 services): bursts of 1..6 Proxy / Object / Session.client requests (in turn, or together under the same forced schedule), " +
+		"losses of a pooled connection with the services still registered (server closes the socket / server sends garbage / client endpoint closed; the harness waits until the pool dropped it), " +
+		"services unregistered and registered again behind another endpoint, a final Object + Proxy request per service; connections accepted/open and pooled endpoints recorded after every phase; " +
+		"non-trivial = some request asks for a service behind an endpoint whose connection was lost before"
 	// probe: the witness of C19_refuted_runlock_after_lock — two goroutines, one endpoint, both miss
 	probe := c19Scenario{Eps: []int{0, 0}, Hook: []bool{true, false}, NEnd: 1}
 	po := c19RunChild(probe, outdir, 999)
@@ -579,7 +587,7 @@ func runC19(res *hx.Result, rng *hx.Rng, tier string, outdir string) {
 		}
 		scs = append(scs, sc)
 	}
-	cf := hx.NewCases(outdir, "C19", "From QV Require Import Session C19Run.", "mismatches cfg_obs cases", res, "cases", "scase")
+	cf := hx.NewCases(outdir, "C19", "From QV Require Import Session SessionLife C19Run.", "mismatches cfg_obs cases lcases", res, "cases", "scase", "lcases", "lcase")
 	cf.Extra = append(cf.Extra, fmt.Sprintf("Definition cfg_obs : cfg := {| runlock_after_lock := %s |}.", hx.Bool(defect)))
 	obs := make([]c19Obs, len(scs))
 	obs[0] = po
@@ -662,5 +670,7 @@ func runC19(res *hx.Result, rng *hx.Rng, tier string, outdir string) {
 		}
 		cf.Add("cases", c19Term(sc, o), desc)
 	}
+	// second part: lives of the pool (c19life.go)
+	runC19Lives(res, rng, tier, outdir, defect, cf)
 	cf.Flush()
 }
